@@ -28,6 +28,8 @@ pub struct OsslCa {
 	pub der: Vec<u8>,
 	pub subject: Vec<(String, String, String)>,
 	pub repeated_types: bool,
+	/// the subject uses an attribute type rcgen cannot represent (an arc >= 2^64)
+	pub huge_arc: bool,
 	pub multi_valued: bool,
 	pub ski: bool,
 	pub pathlen: Option<u32>,
@@ -40,7 +42,20 @@ pub struct OsslCa {
 	pub digest: String,
 }
 
-const FIELDS: [&str; 8] = ["C", "ST", "L", "O", "OU", "CN", "DC", "1.2.3.4.5"];
+const FIELDS: [&str; 11] = [
+	"C",
+	"ST",
+	"L",
+	"O",
+	"OU",
+	"CN",
+	"DC",
+	"1.2.3.4.5",
+	// arcs that do not fit 64 bits (UUID-based OIDs are real): rcgen may refuse the import, it must not alter the name
+	"2.25.329800735698586629295641978511506172918",
+	"2.999.18446744073709551616",
+	"2.999.18446744073709551615",
+];
 
 pub fn make_ossl_ca(rng: &mut Rng, key: &PoolKey) -> Result<OsslCa, String> {
 	let e = |x: openssl::error::ErrorStack| x.to_string();
@@ -162,10 +177,12 @@ pub fn make_ossl_ca(rng: &mut Rng, key: &PoolKey) -> Result<OsslCa, String> {
 	};
 	b.sign(&pkey, md).map_err(e)?;
 	let der = b.build().to_der().map_err(e)?;
+	let huge_arc = subject.iter().any(|x| x.0.starts_with("2.25.") || x.0.ends_with("51616"));
 	Ok(OsslCa {
 		der,
 		subject,
 		repeated_types,
+		huge_arc,
 		multi_valued: false,
 		ski,
 		pathlen,
@@ -201,6 +218,7 @@ pub fn make_cli_multivalued_ca(dir: &std::path::Path, key: &PoolKey, idx: u64) -
 		der,
 		subject: vec![],
 		repeated_types: false,
+		huge_arc: false,
 		multi_valued: true,
 		ski: true,
 		pathlen: None,
@@ -237,6 +255,23 @@ pub fn check_chain(
 	case: &CaseId,
 	text: &str,
 	trusted_der: &[u8],
+	leaf: &Certificate,
+	aki_requested: bool,
+	issuer_sig: SigAlg,
+	leaf_key_sig: SigAlg,
+	tag: &str,
+) {
+	check_chain_via(ctx, case, text, trusted_der, None, leaf, aki_requested, issuer_sig, leaf_key_sig, tag)
+}
+
+/// as `check_chain`; with `root` the issuer certificate is an untrusted intermediate below that trusted root
+#[allow(clippy::too_many_arguments)]
+pub fn check_chain_via(
+	ctx: &Ctx,
+	case: &CaseId,
+	text: &str,
+	trusted_der: &[u8],
+	root: Option<&[u8]>,
 	leaf: &Certificate,
 	aki_requested: bool,
 	issuer_sig: SigAlg,
@@ -297,7 +332,11 @@ pub fn check_chain(
 		},
 	};
 	// OpenSSL cannot express verification times outside time_t comfortably for year < 1970 via set_time? it can (time_t is i64)
-	match ossl::openssl_verify(leaf.der(), &[], &[trusted_der.to_vec()], &VerifyOpts::at(at)) {
+	let (inter, trust): (Vec<Vec<u8>>, Vec<Vec<u8>>) = match root {
+		Some(r) => (vec![trusted_der.to_vec()], vec![r.to_vec()]),
+		None => (vec![], vec![trusted_der.to_vec()]),
+	};
+	match ossl::openssl_verify(leaf.der(), &inter, &trust, &VerifyOpts::at(at)) {
 		Err(e) => ctx.note(format!("openssl verify harness error: {}", e)),
 		Ok(Ok(())) => ctx.count("eval:openssl_chain_accepted"),
 		Ok(Err(why)) => ctx.violation(
@@ -315,7 +354,7 @@ pub fn check_chain(
 		let has_nc = ext_value(&tv, x509::OID_NC).is_some();
 		let unknown_critical = lv.exts.iter().flatten().any(|e| e.critical && !known_to_webpki(&e.oid));
 		if !leaf_is_ca && leaf_eku_ok && !has_nc && !unknown_critical {
-			match ossl::webpki_verify(leaf.der(), &[], &[trusted_der.to_vec()], at, 0) {
+			match ossl::webpki_verify(leaf.der(), &inter, &trust, at, 0) {
 				Err(e) => ctx.note(format!("webpki harness error: {}", e)),
 				Ok(Ok(())) => ctx.count("eval:webpki_chain_accepted"),
 				Ok(Err(why)) => ctx.violation(&format!("c03:{}:webpki-rejects-chain", tag), case, text, &format!("webpki at {}: {}", at, why)),
@@ -449,6 +488,68 @@ pub fn run_c03(ctx: &Ctx, pool: &[PoolKey]) {
 					ctx.violation("c03:reimport-own-certificate-refused", &case, &text, "from_ca_cert_der/pem refuses a certificate rcgen generated itself");
 				},
 				Ok(Ok(Some((orig, lc)))) => check_chain(ctx, &case, &text, &orig, &lc, true, ik.sig, lk.sig, "reimport"),
+			}
+		});
+	}
+
+	// --- (b2) an INTERMEDIATE made by rcgen (it carries an AKI naming the root and its own SKI), imported, re-created
+	let n_b2 = ctx.scale(300, 8_000);
+	if ctx.replay.as_ref().map_or(true, |r| r.workload == "reimport-intermediate") {
+		par_for(n_b2, ctx.threads, |i| {
+			if let Some(r) = &ctx.replay {
+				if r.index != i {
+					return;
+				}
+			}
+			let case = CaseId::new("reimport-intermediate", ctx.seed, i);
+			let mut rng = case.rng();
+			let rk = locals[(i % locals.len() as u64) as usize];
+			let ik = locals[((i / 3 + 1) % locals.len() as u64) as usize];
+			let lk = rng.pick(pool);
+			let kids = [KidSpec::Sha256, KidSpec::Sha384, KidSpec::Sha512, KidSpec::Pre(rng.bytes(20))];
+			let mut rspec = ParamSpec::minimal();
+			rspec.subject = gen_name(&mut rng, 4);
+			if rspec.subject.is_empty() {
+				rspec.subject = ParamSpec::minimal().subject;
+			}
+			rspec.is_ca = IsCaSpec::Ca(None);
+			rspec.kid = kids[(i % 4) as usize].clone();
+			rspec.not_before = TimeSpec::utc(1_500_000_000);
+			rspec.not_after = TimeSpec::utc(2_500_000_000);
+			let mut ispec = rspec.clone();
+			ispec.subject = gen_name(&mut rng, 5);
+			if ispec.subject.is_empty() || name_spec_key(&ispec.subject) == name_spec_key(&rspec.subject) {
+				ispec.subject = vec![AttrSpec { ty: DnTy::Cn, kind: StrKind::Utf8, text: format!("intermediate {}", i) }];
+			}
+			ispec.kid = kids[((i / 4) % 4) as usize].clone();
+			ispec.use_aki = true;
+			ispec.is_ca = IsCaSpec::Ca(if i % 3 == 0 { Some(0) } else { None });
+			let text = format!("root_key={} intermediate_key={} leaf_key={} root={:?} intermediate={:?}", rk.label, ik.label, lk.label, rspec, ispec);
+			let r = crate::guard(|| -> Result<Option<(Vec<u8>, Vec<u8>, Certificate)>, String> {
+				let root = rspec.to_rcgen(None).self_signed(&rk.kp).map_err(|e| format!("root: {}", e))?;
+				let inter = ispec.to_rcgen(None).signed_by(&ik.kp, &root, &rk.kp).map_err(|e| format!("intermediate: {}", e))?;
+				let imported = match if i % 2 == 0 { CertificateParams::from_ca_cert_der(inter.der()) } else { CertificateParams::from_ca_cert_pem(&inter.pem()) } {
+					Ok(p) => p,
+					Err(_) => return Ok(None),
+				};
+				let again = imported.self_signed(&ik.kp).map_err(|e| format!("re-created CA: {}", e))?;
+				let mut leaf = CertificateParams::default();
+				leaf.use_authority_key_identifier_extension = true;
+				leaf.not_before = TimeSpec::utc(1_600_000_000).to_time().unwrap();
+				leaf.not_after = TimeSpec::utc(2_400_000_000).to_time().unwrap();
+				let lc = leaf.signed_by(&lk.kp, &again, &ik.kp).map_err(|e| format!("leaf: {}", e))?;
+				Ok(Some((root.der().to_vec(), inter.der().to_vec(), lc)))
+			});
+			ctx.distinct(crate::util::fnv64(text.as_bytes()));
+			match r {
+				Err(p) => ctx.violation("c03:reimport-panic", &case, &text, &p),
+				Ok(Err(e)) => ctx.violation("c03:reimport-error", &case, &text, &e),
+				Ok(Ok(None)) => ctx.violation("c03:reimport-own-certificate-refused", &case, &text, "from_ca_cert_der/pem refuses an intermediate certificate rcgen generated itself"),
+				Ok(Ok(Some((root, inter, lc)))) => {
+					// webpki wants the intermediate's signature algorithm to be supported as well
+					let worst = if ossl::webpki_supports(rk.sig) { ik.sig } else { rk.sig };
+					check_chain_via(ctx, &case, &text, &inter, Some(&root), &lc, true, worst, lk.sig, "reimport-intermediate")
+				},
 			}
 		});
 	}
@@ -782,7 +883,7 @@ pub fn run_c17(ctx: &Ctx, pool: &[PoolKey]) {
 				Err(p) => ctx.violation("c17:openssl-import-panic", &case, &text, &p),
 				Ok(Err(_)) => {
 					ctx.count("eval:openssl_import_refused");
-					if !ca.repeated_types {
+					if !ca.repeated_types && !ca.huge_arc {
 						ctx.violation("c17:openssl-import-refused", &case, &text, "a plain OpenSSL CA (single-valued RDNs, distinct attribute types) is refused");
 					}
 				},
